@@ -577,3 +577,119 @@ pub fn run(lts: &HLts, o: &HOpts) -> Value {
     json!({"cfg":o.cfg,"mode":"handles","names":o.names,"b":o.b,"events":out.total_events,"segments":out.segments,"edges_run":steps,
            "distinct_state_ops":tested.len(),"fast_disagreements":fast_bad,"lts_states":lts.states.len(),"lts_edges":lts.nedges})
 }
+
+
+// ------------------------------------------------------------------------------------------------
+// C15 with OVERLAPPING write handles: the same script of two write handles (A, B) on one path is run on a sync
+// configuration and on its async twin; after every step both worlds must answer alike and publish the same
+// bytes.  No cursor model is involved: the sync world is the reference ("behaviourally identical").
+pub fn run_two_writers(cfgs: &[String], scripts: usize, seed: u64, b: usize, out_dir: &Path) -> Value {
+    let mut rng = StdRng::seed_from_u64(seed);
+    let mut out = crate::lts::TraceOut::new(out_dir, "twowriters");
+    let mut steps_total = 0u64;
+    for cfg in cfgs {
+        for _ in 0..scripts {
+            let cx = Conc::new("ascii", b);
+            let path: Vec<String> = vec!["a".into()];
+            let mk = |is_async: bool| -> (Ctx, Ctx) {
+                // two contexts share one world: the second one only borrows the path (handles A and B)
+                let w = if is_async { Target::Async(crate::aworld::abuild(cfg, false)) } else { Target::Sync(build(cfg)) };
+                let a = Ctx { w, cx: cx.clone(), path: path.clone(), wh: None, rh: None };
+                let w2 = if is_async { Target::Async(crate::aworld::abuild("mem", false)) } else { Target::Sync(build("mem")) };
+                let bctx = Ctx { w: w2, cx: cx.clone(), path: path.clone(), wh: None, rh: None };
+                (a, bctx)
+            };
+            let (mut sa, mut sb) = mk(false);
+            let (mut aa, mut ab) = mk(true);
+            // initial content (half of the scripts)
+            let init: Vec<i64> = if rng.gen_bool(0.5) { vec![1, 2] } else { vec![] };
+            let has_init = rng.gen_bool(0.5);
+            if has_init {
+                for c in [&mut sa, &mut aa] {
+                    if let Ok(Ok(mut h)) = c.open_w(false) {
+                        let _ = h.write_all(&conc_bytes(&init, b));
+                        let _ = h.flush();
+                    }
+                }
+            }
+            let mut steps = vec![];
+            let n = rng.gen_range(3..10);
+            for _ in 0..n {
+                let who = if rng.gen_bool(0.5) { "A" } else { "B" };
+                let op = *["open_create", "open_append", "write", "write", "flush", "drop", "remove"].choose(&mut rng).unwrap();
+                let data: Vec<i64> = (0..rng.gen_range(1..3)).map(|_| rng.gen_range(0..4)).collect();
+                let mut res = vec![];
+                for (main, second) in [(&mut sa, &mut sb), (&mut aa, &mut ab)] {
+                    // handle B lives in `second.wh` but is opened on the MAIN world's path
+                    let slot_is_b = who == "B";
+                    let r: String = match op {
+                        "open_create" | "open_append" => match main.open_w(op == "open_append") {
+                            Err(()) => "panic".into(),
+                            Ok(Err(_)) => "err".into(),
+                            Ok(Ok(h)) => {
+                                let old = if slot_is_b { second.wh.replace(h) } else { main.wh.replace(h) };
+                                if let Some(o) = old {
+                                    if guard(move || drop(o)).is_err() {
+                                        "panic".into()
+                                    } else {
+                                        "ok".into()
+                                    }
+                                } else {
+                                    "ok".into()
+                                }
+                            }
+                        },
+                        "write" | "flush" => {
+                            let h = if slot_is_b { second.wh.as_mut() } else { main.wh.as_mut() };
+                            match h {
+                                None => "nohandle".into(),
+                                Some(h) => {
+                                    let bytes = conc_bytes(&data, b);
+                                    let r = if op == "write" { io_cls(guard(|| h.write_all(&bytes))).0 } else { io_cls(guard(|| h.flush())).0 };
+                                    r.into()
+                                }
+                            }
+                        }
+                        "drop" => {
+                            let h = if slot_is_b { second.wh.take() } else { main.wh.take() };
+                            match h {
+                                None => "nohandle".into(),
+                                Some(h) => if guard(move || drop(h)).is_err() { "panic".into() } else { "ok".into() },
+                            }
+                        }
+                        _ => match main.remove() {
+                            Err(()) => "panic".into(),
+                            Ok(Err(_)) => "err".into(),
+                            Ok(Ok(())) => "ok".into(),
+                        },
+                    };
+                    let fresh = main.fresh();
+                    res.push(json!({"c": r, "pub": {"c": fresh["c"], "v": fresh["v"], "len": fresh["len"]}}));
+                }
+                steps.push(json!({"who": who, "op": op, "data": data, "sync": res[0], "async": res[1]}));
+                steps_total += 1;
+            }
+            // drop what is left, B first, and compare once more
+            let mut fin = vec![];
+            for (main, second) in [(&mut sa, &mut sb), (&mut aa, &mut ab)] {
+                let mut c = "ok";
+                if let Some(h) = second.wh.take() {
+                    if guard(move || drop(h)).is_err() {
+                        c = "panic";
+                    }
+                }
+                if let Some(h) = main.wh.take() {
+                    if guard(move || drop(h)).is_err() {
+                        c = "panic";
+                    }
+                }
+                let fresh = main.fresh();
+                fin.push(json!({"c": c, "pub": {"c": fresh["c"], "v": fresh["v"], "len": fresh["len"]}}));
+            }
+            steps.push(json!({"who": "-", "op": "drop_all", "data": [], "sync": fin[0], "async": fin[1]}));
+            out.begin(&json!({"ev":"tw","cfg":cfg,"b":b,"init": if has_init { json!(init) } else { json!([-1]) },"steps":steps}));
+        }
+    }
+    out.finish();
+    json!({"cfg":"twowriters","mode":"two overlapping write handles, sync vs async","names":"ascii","b":b,"events":out.total_events,"segments":out.segments,"edges_run":steps_total,"distinct_state_ops":steps_total})
+}
